@@ -1194,7 +1194,7 @@ VF_PART(pca)
     add(2, {0, 1, 2, 5}, 5);
     if (C.thorough()) { add(1, {0, 1, 2, 5, 100}, 6); add(1, {0, 1, 2, 5, 100}, 7); add(2, {0, 1, 2, 5}, 6); add(2, {0, 1, 2, 5}, 7); }
     add(3, {0, 1, 3}, 4); add(3, {0, 1, 3}, 5);
-    if (C.thorough()) { add(3, {0, 1, 3}, 6); add(3, {0, 1, 3}, 7); }
+    if (C.thorough()) add(3, {0, 1, 3}, 6);
   }
   int fi = 0;
   for (auto& f : fams)
